@@ -32,11 +32,22 @@ from .utils import Cube
 __all__ = ("IOData",)
 
 
+def _validate_atcharges(obj, _attribute, value):
+    """Check that every set of atomic charges has one value per atom."""
+    natom = obj.natom
+    if natom is not None and value is not None:
+        for key, charges in value.items():
+            if len(charges) != natom:
+                raise TypeError(
+                    f"atcharges['{key}'] has {len(charges)} elements, expected natom={natom}."
+                )
+
+
 @attrs.define
 class IOData:
     """A container class for data loaded from (or to be written to) a file."""
 
-    atcharges: dict = attrs.field(factory=dict)
+    atcharges: dict = attrs.field(factory=dict, validator=_validate_atcharges)
     """
     A dictionary where keys are names of charge definitions and
     values are arrays with atomic charges (size N).
